@@ -82,6 +82,10 @@ func VH_C19_PostsKeptNewestFirst_sym() {
 	p1 := vBytes("post1", 100)
 	p2 := vBytes("post2", 100)
 	n1, err1 := f.Write(p1)
+	if j := vfs.find("/cfg/MessageBoard.txt"); err1 == nil {
+		vAssert("file_exists_after_first_post", j >= 0)
+		vAssertEqBytes("first_post_on_disk_when_acknowledged", vfs.data[j], append(append([]byte(nil), p1...), old...))
+	}
 	n2, err2 := f.Write(p2)
 	vAssert("posts_acknowledged", err1 == nil && err2 == nil && n1 == len(p1) && n2 == len(p2))
 	want := append(append(append([]byte(nil), p2...), p1...), old...)
